@@ -131,6 +131,9 @@ def gen_path_prog(r, illtyped):
     return prog
 
 
+FLAGS = {}
+
+
 def reference(prog):
     """ISO-style reference for well-typed programs: list of (kind, pts, stroke, fill, evenodd, linewidth, dash,
     scolor, ncolor); colours follow ISO 8.6 incl. the reset by cs/CS (initial colour reported as [])"""
@@ -180,7 +183,10 @@ def reference(prog):
             path += [("m", [x, y]), ("l", [x + w, y]), ("l", [x + w, y + h]), ("l", [x, y + h]), ("h", [])]
         elif name in PAINT:
             if name in ("s", "b", "b*"):
-                path.append(("h", []))
+                if path and path[-1][0] == "h":
+                    FLAGS["doubleclose"] = True        # ISO: closing an already closed subpath adds nothing
+                else:
+                    path.append(("h", []))
             if name != "n":
                 stroke = name in ("S", "s", "B", "B*", "b", "b*")
                 fill = name in ("f", "f*", "B", "B*", "b", "b*")
@@ -257,13 +263,14 @@ def correspondence(ctx):
                  sample={"program": ig.ser_prog(prog).decode("latin-1")[:300], "shapes": len(shapes)})
         results.append((family, pdf, prog, impl, "(ident, %s, %s)" % (ig.g_resources(res, names), ig.g_prog(prog, names))))
         if not illtyped:
+            FLAGS.clear()
             try:
                 want = reference(prog)
             except Exception:
                 want = None
             if want is not None:
                 resets = any(it == ("op", "cs") or it == ("op", "CS") for it in prog)
-                fam = "paths-csreset" if resets else family
+                fam = "paths-csreset" if resets else "paths-doubleclose" if FLAGS.get("doubleclose") else family
                 obs = [(e[1], [tuple(p) for p in e[2]], bool(e[3]), bool(e[4]), bool(e[5]), e[6], e[8], e[9]) for e in shapes]
                 exp = [(w[0], [(float(x), float(y)) for x, y in w[1]], w[2], w[3], w[4], float(w[5]),
                         [float(x) for x in (w[7] or ())], [float(x) for x in (w[8] or ())]) for w in want]
@@ -289,6 +296,11 @@ def known_match(finding, item):
 
 
 def confirm_known(ctx, finding):
+    if finding["family"] == "paths-doubleclose":
+        prog = [("v", 0), ("v", 0), ("v", 10), ("v", 10), ("op", "re"), ("op", "b")]
+        pdf, _ = ig.build_pdf(ig.Resources(), prog, None, split=False)
+        ev = [e for e in ig.impl_events(pdf, ig.Names()) if e[0] == 1]
+        return bool(ev) and ev[0][1] != 1
     prog = [("v", Fr(1, 2)), ("op", "g"), ("v", Nm("DeviceRGB")), ("op", "cs"), ("v", 0), ("v", 0), ("op", "m"),
             ("v", 10), ("v", 10), ("op", "l"), ("op", "f")]
     pdf, _ = ig.build_pdf(ig.Resources(), prog, None, split=False)
